@@ -55,7 +55,7 @@ def spec_check(g, pred, succ, ev):
 
 
 def run(ctx):
-    n = 300 if ctx.tier == "quick" else 6000
+    n = 1200 if ctx.tier == "quick" else 20000
     done = 0
     while done < n and ctx.time_left() > 5:
         batch = gen_valid_graphs(ctx, min(300, n - done), max_demes=7 if ctx.tier == "quick" else 10)
